@@ -90,8 +90,10 @@ A_C16_StoreCompareAndSet == \A k \in StoreKind : (applied'[k] # applied[k] \/ cl
 C16_StoreCompareAndSet == [][A_C16_StoreCompareAndSet]_vars
 
 \* only the named kind takes effect, once
-A_C16_OnlyNamedKind == \A k \in Kind : /\ applied'[k] # applied[k] => (op'.kind = k /\ op'.pay = "valid" /\ applied'[k] = applied[k] + 1)
-                                        /\ cleared'[k] # cleared[k] => (op'.kind = k /\ op'.pay = "reset" /\ cleared'[k] = cleared[k] + 1)
+A_C16_OnlyNamedKind ==
+  \A k \in Kind :
+    /\ (applied'[k] # applied[k]) => (op'.kind = k /\ op'.pay = "valid" /\ applied'[k] = applied[k] + 1)
+    /\ (cleared'[k] # cleared[k]) => (op'.kind = k /\ op'.pay = "reset" /\ cleared'[k] = cleared[k] + 1)
 C16_OnlyNamedKind == [][A_C16_OnlyNamedKind]_vars
 
 ---------------------------------------------------------------------------
